@@ -3,7 +3,7 @@
    OCaml's own; N, positive, nat, ascii, string, comparison stay Coq datatypes. *)
 Require Extraction.
 Require ExtrOcamlBasic.
-From RC Require Import Base.Res Base.Wire Model.Enums Gen.EnumTables Gen.Merge Model.Open Model.Negotiate Gen.CmpChain Model.Select Model.Nlri Model.NlriOrd Model.AsPath Gen.AttrRules Model.Attr Model.Update Gen.BuilderConsts Model.Builder Model.PaMap Gen.CapRules Model.OpenMsg Gen.FsmTable Model.Fsm Base.Text Gen.CommTables Model.Comm.
+From RC Require Import Base.Res Base.Wire Model.Enums Gen.EnumTables Gen.Merge Model.Open Model.Negotiate Gen.CmpChain Model.Select Model.Nlri Model.NlriOrd Model.AsPath Gen.AttrRules Model.Attr Model.Update Gen.BuilderConsts Model.Builder Model.PaMap Gen.CapRules Model.OpenMsg Gen.FsmTable Model.Fsm Base.Text Gen.CommTables Model.Comm Gen.TimerConsts Model.Timer.
 Extraction Language OCaml.
 Set Extraction KeepSingleton.
 Extraction "../ocaml/model.ml"
@@ -45,4 +45,5 @@ Extraction "../ocaml/model.ml"
   Comm.wk_to_u32 Comm.wk_from_str Comm.std_asn Comm.std_tag Comm.ext_display Comm.ext_from_str Comm.ext_types
   Comm.ext_is_transitive Comm.ext_as2 Comm.ext_as4 Comm.ext_ip4 Comm.ext_an2 Comm.ext_an4 Comm.large_display
   Comm.large_from_str Comm.v6_display Comm.v6_from_str Comm.v6_is_transitive Comm.octs
+  Timer.tstep Timer.t_init Timer.texec
   EnumTables.all_enum_widths EnumTables.all_enum_names.
